@@ -87,9 +87,9 @@ CHECKS["C08"] = dict(
 
 WIRE_NOTE = "Domain restrictions of DESIGN §4 C09 / §11 (path values non-empty and '/'-free, arrays non-empty, header values visible ASCII, times as instants, finite floats). The client is NewClient(origin + normalised base path, HTTPClient); the HTTPClient records the wire request and serves a fresh server-side copy through API.ServeHTTP in-process. Operations whose generated code does not build are excluded by the pre-flight and counted. Lexical spaces by strconv / time.Parse; TLC and the reflective driver are trusted."
 CHECKS["C09"] = dict(
-  level="model_checking", design="§4 C09, spec/Wire.tla (WireValid), spec/Params.tla, spec/Codec.tla, spec/Trace_Wire.tla",
+  level="model_checking", design="§4 C09, §17.7, spec/Wire.tla (WireValid), spec/Params.tla, spec/Codec.tla, spec/Trace_Wire.tla, spec/Client.tla, spec/MC_Client.tla, spec/Trace_Client.tla",
   technique="calls through the real generated Client against the real generated server; the wire request validated by a TLA+ request validator (Wire.WireValid = Router.Match + Params.Failing + Codec.Valid) and parsed = sent judged by TLC (Trace_Wire)",
-  text="Seeded operations (typed path parameters, query parameters incl. arrays, header parameters, JSON / raw / no body; rotating base-path forms) are called with seeded boundary values: reserved URL and header characters, extreme numbers, zoned times, empty optional strings, multi-element arrays. TLC checks that the request on the wire is valid for the operation (method, template match beneath the base path, required parameters present, every lexeme in its type's space, no undeclared query keys, body valid for its schema) and that the handler's Parse() value equals the value sent, field by field, unset staying unset.",
+  text="Seeded operations (typed path parameters, query parameters incl. arrays, header parameters, JSON / raw / no body; rotating base-path forms) are called with seeded boundary values: reserved URL and header characters, extreme numbers, zoned times, empty optional strings, multi-element arrays. TLC checks that the request on the wire is valid for the operation (method, template match beneath the base path, required parameters present, every lexeme in its type's space, no undeclared query keys, body valid for its schema) and that the handler's Parse() value equals the value sent, field by field, unset staying unset. Client walk: the composed client / server machines of Client.tla are model-checked (round trip inside the domain, every domain restriction necessary); all 168 operation shapes of that model are generated and called with values of every kind inside and outside the domain; inside the domain the round trip must hold, outside it the outcome is compared with the model (drift only). The same calls also go through API.LocalClient().",
   note=WIRE_NOTE)
 CHECKS["C10"] = dict(
   level="model_checking", design="§4 C10, spec/Wire.tla (ClientOutcome), spec/MC_Wire.tla, spec/Trace_Wire.tla",
